@@ -58,13 +58,15 @@ try:
         shutil.copy(demos[0], dest)
         tests = re.findall(r"^func (Test\w+)\(", open(demos[0]).read(), re.M)
         pat = "^(" + "|".join(tests) + ")$"
-        rc0, out0 = sh(f"go test -vet=off -count=1 -run '{pat}' .", cwd=dest, timeout=900); note("demo without the change", rc0, out0)
+        # a demonstration of a data race only fails under the race detector (the README's commands say so)
+        race = "-race " if re.search(r"go test[^\n]*-race", open(f"{src}/README.md").read() if os.path.exists(f"{src}/README.md") else "") else ""
+        rc0, out0 = sh(f"go test {race}-vet=off -count=1 -run '{pat}' .", cwd=dest, timeout=900); note("demo without the change", rc0, out0)
     # with the change
     rc, out = sh(f"git apply {patch}", cwd=wt); note("git apply", rc, out)
     rc, out = sh("go build ./...", cwd=wt); note("go build ./...", rc, out)
     build_ok = rc == 0
     if demos and dest:
-        rc1, out1 = sh(f"go test -vet=off -count=1 -run '{pat}' .", cwd=dest, timeout=900); note("demo with the change", rc1, out1)
+        rc1, out1 = sh(f"go test {race}-vet=off -count=1 -run '{pat}' .", cwd=dest, timeout=900); note("demo with the change", rc1, out1)
         os.remove(os.path.join(dest, os.path.basename(demos[0])))
     else:
         rc0, rc1 = 0, 1
